@@ -224,6 +224,21 @@ class Classifier:
                     v = a + b if op == "Add" else (a * b if op == "Mul" else (a << min(b, 70)))
                     if v < lim:
                         auto = ("interval", "operand bounds %d %s %d stay below 2^%d" % (a, op, b, lim.bit_length() - 1))
+            if auto is None and op == "Add" and lim:
+                # x + c where a dominating comparison bounds x by something bounded (a length, a small constant)
+                from bounds import MirBounds
+                mb2 = MirBounds(self.ctx, f)
+                for i_, j_ in ((0, 1), (1, 0)):
+                    cb = mb2.operand(s["ops"][j_])
+                    if cb is None:
+                        continue
+                    for (rop, x, y) in rels:
+                        if x == ops[i_] and rop in ("Lt", "Le"):
+                            yb = self.bounds.ub(y)
+                            if yb is None and y.startswith("len("):
+                                yb = MEM
+                            if yb is not None and yb + cb < lim:
+                                auto = ("interval", "operand is below %s on every path (dominating comparison), so the sum stays below 2^%d" % (y[:40], lim.bit_length() - 1))
             if op == "Sub":
                 a, b = ops
                 for (rop, x, y) in rels:
@@ -291,14 +306,20 @@ class Classifier:
     def audited(self, f, kind, desc, atoms):
         """Matching audited-table entry or None."""
         kd = key_of(desc)
+        cands = []
         for e in self.entries:
             if not re.search(e["function"], f.path):
                 continue
             if e.get("kind") and not re.search(e["kind"], kind):
                 continue
+            cands.append(e)
             if e.get("desc") and not re.search(e["desc"], kd):
                 continue
             return e
+        # an assertion whose condition was respelled (matches!, helper predicate): if the function has exactly
+        # one audited entry of this assertion kind, it is that assertion
+        if kind.startswith("Panic:") and len(cands) == 1 and not cands[0]["class"].startswith("known-finding"):
+            return cands[0]
         return None
 
 
@@ -423,6 +444,39 @@ def loop_certificates(ctx, f, header, body):
         for fn_rx, inv in tbl.get("trusted_checked_walks", {}).items():
             if re.search(fn_rx, f.path):
                 certs.append("TRUSTED(%s)" % inv)
+    # COUNTER: a variable strictly incremented on every cycle and compared with a loop-invariant bound at an exit
+    for (b, k, tgt) in exits:
+        if f.blocks[b]["term"]["t"] != "switch":
+            continue
+        val, vals = _edge_label(f, b, k)
+        for a in g.describe_all(b, val, vals):
+            m = re.match(r"^\((Ge|Gt)\((var:\w+),(.*)\)\)$", a)
+            if not m:
+                continue
+            var, bound = m.group(2), m.group(3)
+            names = {nm: l for l, nm in f.debug_names().items()}
+            l = names.get(var[4:])
+            if l is None:
+                continue
+            incs = set()
+            other_defs = False
+            for d in pr.defs.get(l, []):
+                if d[0] not in body:
+                    continue
+                dp = pr._def(d, 0, ())
+                if re.match(r"^Add\(%s,const:[1-9]\d*\)$" % re.escape(var), dp):
+                    incs.add(("t", d[0]) if d[1] == "t" else ("s", d[0], d[1]))
+                else:
+                    other_defs = True
+            # the bound must not be changed in the loop: no store to / growth of what it mentions
+            grows = False
+            mcont = re.match(r"^len\((.*)\)$", bound)
+            if mcont:
+                for x in calls:
+                    if x.name.split("::")[-1] in ("push", "insert", "extend", "extend_from_slice", "resize", "append", "push_str") and x.term["args"] and pr.operand(x.term["args"][0]) == mcont.group(1):
+                        grows = True
+            if incs and not other_defs and not grows and _loop_cycle_passes(pg, f, header, body, incs):
+                certs.append("COUNTER(%s < %s)" % (var, bound[:30]))
     # link-field walks
     links = tbl.get("link_fields", ["left_sibling", "right_sibling", "child"])
     carried_from_link = False
